@@ -36,7 +36,50 @@ def run(chk):
     read_exact(chk, prog)
     absence(chk, prog, cg)
     events_not_dropped(chk, prog)
+    slicing_controls(chk, prog, names, cg, fa)
     return chk.finish(EXPL)
+
+
+def slicing_controls(chk, prog, names, cg, fa):
+    """T-NONINT/slicing: the host's slicing knobs named by the statement -- the speed mode, sound on/off, draining the
+    sample queue -- may change nothing but their own bookkeeping: everything the functions reachable from set_speed /
+    set_sound / next_audio_sample store to (or borrow mutably, or replace as a whole) is the mode word, the sound flag,
+    respectively the sample queue and the path of borrows leading to it.  In particular no device object (mixer with the
+    AY chip, CPU, memory, tape) is re-created or written by them."""
+    chk.rule("T-NONINT/slicing", "mod set of set_speed / set_sound / next_audio_sample is their own bookkeeping only")
+    EM = prog.adt_path("rustzx_core", "Emulator")
+    MIX = prog.adt_path("rustzx_core", "ZXMixer")
+    table = {
+        "set_speed": {(EM, "mode")},
+        "set_sound": {(EM, "sound_enabled")},
+        "next_audio_sample": {(EM, "controller"), (names.CTL, "mixer"), (MIX, "ring_buffer")},
+    }
+    written = {}
+    for (adt, field), sites in list(fa.stores.items()) + list(fa.mutrefs.items()):
+        for s_ in sites:
+            written.setdefault(cc.strip_closure(s_.fn.path), set()).add((adt, field))
+    n = 0
+    for api, allowed in table.items():
+        try:
+            root = prog.fn_path("rustzx_core", "Emulator::<H>::" + api)
+        except KeyError:
+            chk.undecided_("T-NONINT/slicing/%s/anchor" % api, "Emulator::%s not found" % api)
+            continue
+        reach = set(cc.strip_closure(p) for p in cg.reachable([root]) if p in prog.fns and prog.fns[p].local)
+        mods = set()
+        who = {}
+        for p in reach:
+            for af in written.get(p, ()):
+                a = prog.adt(af[0])
+                if a and a.get("local"):
+                    mods.add(af)
+                    who.setdefault(af, p)
+        extra = mods - allowed
+        chk.check(not extra, "T-NONINT/slicing/%s" % api,
+                  "%s changes more than its own bookkeeping: %s" % (api, sorted("%s.%s (in %s)" % (a.split("::")[-1], f, who[(a, f)].split("::")[-1]) for a, f in extra)))
+        n += len(reach)
+    chk.count("slicing-functions", n)
+    chk.floor("slicing-functions", 3)
 
 
 def stopwatch(chk, prog):
